@@ -231,7 +231,7 @@ theorem flushdb_only_selected (q : Quirks) (st : State) (now c i : Nat) (n : Byt
     ∀ j, j ≠ i → getDb (exec Switches.fixed q st now c (.plain [n] obs)).1.store j = getDb st.store j := by
   constructor
   · have hne : ∀ s : String, s ≠ "FLUSHDB" → ¬ nameOf [n] = s := fun s hs e => hs (e.symm.trans hn)
-    simp [exec, reqName, hb, hm, dispatch, hne, access, step_flushdb q _ _ now n obs hn, processWakes, hw, serve, hsel,
+    simp [exec, reqName, hb, hm, dispatch, hne, access, step_flushdb q _ _ now n obs hn, processWakes_nil, hw, hsel,
       getDb_setDb_self _ _ _ hi]
   · intro j hj
     refine conn_step_frame q st now c i j (.plain [n] obs) hsel hw ?_ ?_ hj
@@ -244,7 +244,7 @@ theorem flushall_all (q : Quirks) (st : State) (now c j : Nat) (n : Bytes) (obs 
     (hb : (st.conns c).blocked = false) (hm : (st.conns c).inMulti = false) (hw : st.wakes = []) :
     getDb (exec Switches.fixed q st now c (.plain [n] obs)).1.store j = [] := by
   have hne : ∀ s : String, s ≠ "FLUSHALL" → ¬ nameOf [n] = s := fun s hs e => hs (e.symm.trans hn)
-  simp [exec, reqName, hb, hm, dispatch, hne, access, step_flushall q _ _ now n obs hn, processWakes, hw, serve,
+  simp [exec, reqName, hb, hm, dispatch, hne, access, step_flushall q _ _ now n obs hn, processWakes_nil, hw,
     getDb_flushed]
 
 /-! ### 5. Tables regenerated from the source -/
@@ -315,11 +315,13 @@ theorem code_conn_step_frame (q : Quirks) (st : State) (now c i j : Nat) (r : Re
 
 /-- Prescribed (what Redis does): a SELECT queued in a transaction is executed by EXEC like any other command — the
     commands queued after it run on the newly selected database and the selection stays after the transaction.
-    Stated for `MULTI; SELECT k; cmd; EXEC` with any valid SELECT spelling, any ordinary command and any state. -/
+    Stated for `MULTI; SELECT k; cmd; EXEC` with any valid SELECT spelling, any ordinary command (one that cannot serve a
+    blocked client) and any state. -/
 theorem select_in_multi (q : Quirks) (st : State) (now c k : Nat) (e n0 a n : Bytes) (args : List Bytes) (obs : Option (List Bytes))
     (he : nameOf [e] = "EXEC") (hn : nameOf [n0, a] = "SELECT") (hk : selectArg [a] = some k)
     (h1 : nameOf (n :: args) ≠ "SELECT") (h2 : nameOf (n :: args) ≠ "BLPOP") (h3 : nameOf (n :: args) ≠ "BRPOP")
     (h4 : nameOf (n :: args) ≠ "LPUSH") (h5 : nameOf (n :: args) ≠ "RPUSH")
+    (h6 : nameOf (n :: args) ≠ "RENAME") (h7 : nameOf (n :: args) ≠ "RENAMENX")
     (hb : (st.conns c).blocked = false) (hm : (st.conns c).inMulti = true)
     (hq : (st.conns c).queue = [.plain [n0, a] none, .plain (n :: args) obs]) (hw : st.wakes = []) :
     (exec Switches.fixed q st now c (.plain [e] none)).2.reply
@@ -328,8 +330,8 @@ theorem select_in_multi (q : Quirks) (st : State) (now c k : Nat) (e n0 a n : By
     ((exec Switches.fixed q st now c (.plain [e] none)).1.conns c).db = k ∧
     ((exec Switches.fixed q st now c (.plain [e] none)).1.conns c).inMulti = false := by
   have hne : ∀ s : String, s ≠ "EXEC" → ¬ nameOf [e] = s := fun s hs x => hs (x.symm.trans he)
-  simp [exec, reqName, he, hne, hb, hm, hq, execQueue, dispatch, hn, doSelect, hk, h1, h2, h3, h4, h5, updConn, access,
-    processWakes, hw, serve, Switches.fixed]
+  simp [exec, reqName, he, hne, hb, hm, hq, execQueue, dispatch, hn, doSelect, hk, h1, h2, h3, h4, h5, h6, h7, updConn, access,
+    processWakes_nil, hw, Switches.fixed]
 
 /-- `MULTI; SELECT 1; SET k v; EXEC` by connection 1 on an empty server -/
 def selectInMultiWitness : List Dbs.Ev :=
